@@ -44,7 +44,7 @@ for f in glob.glob(S+'/cal*_*.json'):
             if 'malformed grpc-status' in t or (mm and mm.group(1) in malformed): filtered['status code >= 2^31: grpc-go cannot carry it (malformed grpc-status) and drops the trailers with it']+=1; continue
             if 'error reading server preface' in t or 'failed to write client preface' in t or ('newstream' in t and 'Unavailable' in t and 'use of closed network connection' in t): filtered['deadline during the HTTP/2 connection preface: grpc-go reports Unavailable (connection-level, no grpchan counterpart)']+=1; continue
             if sig.startswith('C04') and any(re.search(r'hreturn .*-> status\(.*\\x.*,\d+d\)',l) for l in (r.get('history') or [])): filtered['invalid-UTF-8 status message with details (as above), seen by the C04 oracle as "not the handler\'s real status"']+=1; continue
-            if 'per-RPC creds failed due to error: context' in t: filtered['a credential that gave up because the context ended: grpc-go reports Internal ("per-RPC creds failed"), a status but not the context\'s code; grpchan reports Canceled/DeadlineExceeded (fix 2e03d05)']+=1; continue
+            if 'per-RPC creds failed due to error:' in t and 'context ' in t: filtered['a credential that gave up because the context ended: grpc-go reports Internal ("per-RPC creds failed"), a status but not the context\'s code; grpchan reports Canceled/DeadlineExceeded (fix 2e03d05)']+=1; continue
             if sig.startswith(('C16','C17','H|')): continue
             c[sig]+=1; ex.setdefault(sig,(r['seed'],t))
 print(f"calibration: {runs} runs on grpc-go")
